@@ -4,7 +4,8 @@
 (*                                                                         *)
 (* State: `data`, a bag of respondents.  A respondent is a key             *)
 (* [p |-> answer profile, w |-> weight]; data[k] is how many respondents   *)
-(* share that key.  The only action is Interview(k).                       *)
+(* share that key.  The only action is Interview(k, m): m more            *)
+(* respondents with key k.                                                 *)
 (*                                                                         *)
 (* Everything the server sends (Payload.tla) and everything the library    *)
 (* must report (Tabulate.tla, Derived.tla) is derived from this state.     *)
@@ -23,7 +24,10 @@ CONSTANTS
   Population, \* target population argument (NA = not given)
   Filter,    \* filter statistics of the response, see Derived!Fraction
   Overlaps,  \* TRUE: the response carries overlap / valid_overlap measures for its MR columns
-  SimMode    \* TRUE under `tlc -simulate`: one random respondent per step
+  SimMode,   \* TRUE under `tlc -simulate`: one random respondent per step
+  Batches    \* set of positive integers: how many identical respondents one Interview
+             \* step may add ({1} in exhaustive search; larger batches in simulation give
+             \* tables with enough cases for significance tests to fire)
 
 (***************************************************************************)
 (* A dimension record:                                                     *)
@@ -113,18 +117,20 @@ KeySet == [p : ProfileSet, w : Weights]
 (***************************************************************************)
 NResp == MapThenSumSet(LAMBDA k : data[k], DOMAIN data)
 
-Interview(k) ==
+Interview(k, m) ==
   data' = IF k \in DOMAIN data
-          THEN [data EXCEPT ![k] = @ + 1]
-          ELSE [x \in DOMAIN data \cup {k} |-> IF x = k THEN 1 ELSE data[x]]
+          THEN [data EXCEPT ![k] = @ + m]
+          ELSE [x \in DOMAIN data \cup {k} |-> IF x = k THEN m ELSE data[x]]
 
 Init == data = [x \in {} |-> 0]
 \* Exhaustive search interviews every possible respondent next.  In simulation TLC
 \* evaluates the invariant on every successor before it picks one, so a single random
-\* respondent is offered per step to keep one emission per step.
-Next == /\ NResp < MaxResp
-        /\ IF SimMode THEN Interview(RandomElement(KeySet))
-           ELSE \E k \in KeySet : Interview(k)
+\* respondent (batch) is offered per step to keep one emission per step.
+Next == IF SimMode
+        THEN LET m0 == RandomElement(Batches)
+                 m  == IF NResp + m0 <= MaxResp THEN m0 ELSE 1
+             IN  NResp + m <= MaxResp /\ Interview(RandomElement(KeySet), m)
+        ELSE \E k \in KeySet, m \in Batches : NResp + m <= MaxResp /\ Interview(k, m)
 Spec == Init /\ [][Next]_data
 
 Bounded == NResp <= MaxResp
